@@ -14,6 +14,18 @@ func C09Scenario() *Scenario {
 		t := w.T
 		s := newRollingSetup(w, RollingOpts{MaxReplicas: 3})
 		p := s.Parents[0]
+		// in a quarter of the runs the controller has a finalize hook that keeps the
+		// children (and answers finalized:false) while spec.template.hold is true, and the
+		// parent is deleted in the middle of the rollout: the rollout goes on under
+		// finalization, and what is recorded must stay ahead of what is done all the same
+		deleteMidRollout := t.Pick(4, "deletemidrollout") == 3
+		if deleteMidRollout {
+			s.Cfg.Finalize = true
+			s.TP.FinalizeHold = true
+			EditObject(w, ResCompositeCtl, "", s.Cfg.Name, "setup", func(o Object) { o["spec"] = s.Cfg.Object()["spec"] })
+			EditObject(w, p.Res, p.NS, p.Name, "setup", func(o Object) { setPath(o, true, "spec", "template", "hold") })
+			w.Cfg["deletedMidRollout"] = "true"
+		}
 		fair := &Policy{Name: "fair+status", EnvWhenIdle: true}
 		w.EnvOps = func(w *World) []EnvOp { return s.StatusActor(true) }
 		changeStep := 0
@@ -44,6 +56,15 @@ func C09Scenario() *Scenario {
 					EditObject(w, p.Res, p.NS, p.Name, "user", func(o Object) { setPath(o, "c-new", "spec", "template", "color") })
 				}},
 		}
+		if deleteMidRollout {
+			w.Stages[1].Quiet, w.Stages[1].Steps = false, 4+t.Pick(30, "deleteafter")
+			w.Stages = append(w.Stages, Stage{Name: "deleted-mid-rollout", Quiet: true, MaxSteps: 5000, Policy: fair, OnBudget: budget,
+				Do: func(w *World) {
+					w.Store.Delete(p.Res, p.NS, p.Name, DeleteOpts{Propagation: "Background"}, "user")
+					w.Probe("c09:parent-deleted-mid-rollout")
+				}})
+			second = false
+		}
 		if second {
 			w.Stages = append(w.Stages, Stage{Name: "rollout2", Quiet: true, MaxSteps: 5000, Policy: fair, OnBudget: budget,
 				Do: func(w *World) {
@@ -57,6 +78,10 @@ func C09Scenario() *Scenario {
 			}
 			if v := c09Ordering(w, s); v != nil {
 				return v
+			}
+			if deleteMidRollout {
+				// the parent is being finalized: there is no "rollout finished" state to compare with
+				return nil
 			}
 			if v := c08Check(w, s, p, changeStep); v != nil {
 				if v.Prop == "C08" {
